@@ -108,6 +108,29 @@ CLAIMED = {
 }
 NOT_YET = "not yet claimed: model/theorems for this property are still being built (see DESIGN.md §5); no other technique is substituted"
 
+# ---- updates (as built; later sessions extend the theorem sets — keep these in step with lean/NextestModel/Thm/*.lean)
+CLAIMED["C01"].update(
+    note="Trusted: Lean kernel + standard axioms; Model/Dispatcher; tools/extract.py for the regenerated table. End-to-end: the real process exit status is compared with the scripted processes' own outcomes in families mix (results, retries), slow (timed-out tests incl. ones that exit 0 when told to terminate), cancel (fail-fast / max-fail) and sig (shutdown signals). Reporter I/O failures are a hypothesis of the statement and are not injected.")
+CLAIMED["C02"].update(
+    note="PARTIAL: the full liveness statement is false of the current code (known finding F7, third-party future-queue); the partial liveness theorem under per-group uniform weights is not proved. Attempt numbering / one process per attempt / no overlap / exactly-once start and finish are checked on real histories (families mix, cancel, sig: monitors mon_once and mon_history on the event log merged with the processes' own records), not proved for the executor's attempt loop.")
+CLAIMED["C03"].update(
+    text=CLAIMED["C03"]["text"] + " ExecutionStatuses::describe is compared exhaustively over every sequence of 1-4 attempt results (guarded hook).",
+    note="PARTIAL: the executor paths that set Timeout / ExecFail / leaked are modelled in Model/Unit (timeout_iff_terminated_by_nextest) and observed end-to-end (families mix, slow incl. tests exiting 0 on SIGTERM, cancel incl. a cancellation arriving inside the leak window); the race at the leak-timeout threshold is excluded by the statement.")
+CLAIMED["C07"].update(
+    note="PARTIAL: the attempt loop (retry until pass or N+1 attempts, stop on success, delay actually waited, pauses excluded, no retry once cancelled) is executor behaviour: modelled per unit in Model/Unit (delay phase) and checked end-to-end on the processes' own timestamps (families mix, cancel, stop), not proved as a loop invariant.")
+CLAIMED["C15"].update(
+    text="Lean 4 theorems: the argv shape for any test name (argv_exact); shell_words::split(shell_words::join(ws)) = ws for EVERY list of words over every Unicode scalar value, by induction over the word list with one lemma per quoting style of `quote` against `split`'s eight-state machine (shell_roundtrip), hence the double-spawn launcher is transparent and never hits its parse error (double_spawn_transparent, double_spawn_never_parse_error); every variable nextest sets wins over the inherited environment and Cargo's [env] whatever they contain, and the run id is one value per run (nextest_vars_win, run_id_constant). Tied to the code in-process (guarded hook verif_make_command: the real TestInstance::make_command / create_command / TestCommand::new / EnvironmentMap::apply_env on hostile names, extra args, package metadata, inherited environment and [env] tables with and without force, double-spawn on and off; the real shell_words on adversarial word lists and raw strings) and end-to-end (scripted processes record their own argv, cwd, pgid, stdin, environment).",
+    note="Trusted: Lean kernel; Model/Command, Model/Shell; hook verif_make_command; the harness replays DoubleSpawnOpts::exec's three lines (split, then exec) in-process, the real launcher is exercised end-to-end. Process-group leadership, /dev/null stdin, cwd and the variables written in run_test_inner (__NEXTEST_ATTEMPT, NEXTEST_RUN_ID, slots, setup-script variables) are observed end-to-end only.",
+    technique="Lean 4 proof (induction over word lists and over a state machine; list-of-writes semantics) + in-process differential correspondence through a guarded hook + end-to-end correspondence with scripted processes")
+CLAIMED["C16"].update(
+    note="PARTIAL: pipe/epoll/tokio delivery is assumed (POSIX). The documented normalisations (lossy UTF-8, ANSI and XML-invalid character stripping) are checked on one fixed hostile output against a pinned expected text (astral planes, private use, U+FFFD kept; U+FFFE/U+FFFF, C0 controls, the escape sequence removed); combined capture is not exercised. Output written immediately before the process is gone (from a SIGTERM handler into an enlarged pipe, up to 900 kB) must be captured in full. Trusted: Lean kernel; Model/Capture; event tap; scripted binary.")
+CLAIMED["C17"].update(
+    text="Lean 4 theorems. Counters: passed + failed + exec-failed + timed-out = finished with flaky, leaky and slow as sub-counts, and the script analogue, on every state reachable under every event order (counter_partition_step, counter_partition); every TestFinished event carries the run's statistics of that moment and the test's complete attempt list (finished_event_carries_stats). JUnit aggregation (Model/Junit = MetadataJunit::write_event), for EVERY event list: the report is exactly the grouping of the per-event test cases by suite key in event order (Lemmas.Junit.writeEvents_casesFor) with one suite per binary / script (junit_suites_distinct), hence exactly one test case per finished test in the suite named after its binary (junit_one_case_per_finished, junit_total_cases); a case has a failure/error element iff the final attempt did not succeed (junit_status_iff); a finally-passing test has one flaky* child per prior failed attempt and carries the last attempt, a failing test one rerun* child per attempt after the first and carries the first — every attempt has exactly one place (junit_reruns); output is stored exactly as store-success-output / store-failure-output say, per case and per rerun (junit_store_rule); the aggregator's unreachable! is not reachable on executor histories (junit_no_panic); and the three views agree: report totals, failure/error cases and flaky cases equal the statistics folded from the same events, which the summary line prints (three_views_agree). Tied to the code by the dispatcher stepping hook (counters) and by driving the real Reporter with synthetic events and parsing the JUnit file and Summary line back (p_junit).",
+    note="Trusted: Lean kernel; Model/Dispatcher, Model/Junit; guarded hooks (ExecutionStatuses::verif_new, RunStats::verif_on_*); quick-junit's XML writing and character filtering are third-party: exercised (quick-xml in-process, expat end-to-end, hostile output incl. U+FFFE/U+FFFF), not modelled. Hypothesis of the JUnit theorems: every attempt before the last failed (what the attempt loop produces).",
+    technique="Lean 4 proof (refinement: report = group-by of per-event cases; invariants by induction over event lists) + differential correspondence through a stepping hook and through the real Reporter + end-to-end")
+CLAIMED["C19"].update(
+    text=CLAIMED["C19"]["text"].replace("(dedup_no_duplicates, dedup_first_wins, dedup_complete);", "(dedup_no_duplicates, dedup_first_wins, dedup_complete, member_origin); the archive's own metadata entries always come from memory, never from a stale file found in the target directory or an include (metadata_is_fresh);"))
+
 def main():
     hooks_commits = subprocess.run(["git", "-C", "/repo", "log", "--format=%h %s"], stdout=subprocess.PIPE).stdout.decode().split("\n")
     hooks = [l.split(" ")[0] for l in hooks_commits if "verif-hooks" in l]
